@@ -58,6 +58,7 @@ type knownEntry struct {
 	What      string `json:"what"`
 	Commit    string `json:"commit,omitempty"`
 	Witness   any    `json:"witness,omitempty"`
+	Tier      string `json:"tier,omitempty"` // when set, the finding is only observable in that tier (e.g. needs the asan build)
 }
 
 func goEnv() []string {
@@ -77,7 +78,7 @@ func buildArgs(variant string) []string {
 	case "asan":
 		a = append(a, "-asan")
 	case "cover":
-		a = append(a, "-cover", "-coverpkg=github.com/go-ap/activitypub/...")
+		a = append(a, "-cover", "-coverpkg=github.com/go-ap/activitypub,verif/harness/cmd/vdrive")
 	}
 	a = append(a, "-o", filepath.Join(buildDir, "vdrive-"+variant), "./cmd/vdrive")
 	return a
@@ -199,6 +200,29 @@ func fatalLine(logPath string) string {
 	return "killed without message"
 }
 
+// fatalClass reduces the fatal line to the kind of condition.
+func fatalClass(l string) string {
+	switch {
+	case strings.Contains(l, "AddressSanitizer"):
+		return "AddressSanitizer"
+	case strings.Contains(l, "checkptr"):
+		return "checkptr"
+	case strings.Contains(l, "stack exceeds"), strings.Contains(l, "stack overflow"):
+		return "stack-overflow"
+	case strings.Contains(l, "SIGSEGV"), strings.Contains(l, "unexpected fault address"), strings.Contains(l, "unexpected signal"):
+		return "SIGSEGV"
+	case strings.Contains(l, "out of memory"):
+		return "out-of-memory"
+	case strings.HasPrefix(l, "SIGQUIT"):
+		return "watchdog"
+	case strings.HasPrefix(l, "panic:"):
+		return "panic"
+	case strings.HasPrefix(l, "fatal error:"):
+		return strings.TrimSpace(l)
+	}
+	return l
+}
+
 func libFrame(logPath string) string {
 	b, err := os.ReadFile(logPath)
 	if err != nil {
@@ -284,9 +308,14 @@ func (r *runner) runShard(variant string, shard, nshards int) childOut {
 		}
 		fl := fatalLine(logPath)
 		fr := libFrame(logPath)
+		// signature: kind | layer | class of the fatal condition | class of the pending operation (the part before " :: ")
+		opClass := op
+		if i := strings.Index(op, " :: "); i >= 0 {
+			opClass = op[:i]
+		}
 		f := trace.Finding{Prop: r.prop, Layer: layer, Index: idx, Seed: r.seed, Build: variant,
-			Sig:    fmt.Sprintf("%s|%s|%s|%s", kind, layer, fl, fr),
-			What:   fmt.Sprintf("child process died (%s, exit %d) while executing %s:%d op=%q: %s [frame %s]", kind, exit, layer, idx, op, fl, fr),
+			Sig:    fmt.Sprintf("%s|%s|%s|%s", kind, layer, fatalClass(fl), opClass),
+			What:   fmt.Sprintf("child process died (%s, exit %d, %s build) while executing %s:%d op=%q: %s [frame %s]", kind, exit, variant, layer, idx, op, fl, fr),
 			Detail: map[string]any{"exit": exit, "op": op, "log": logPath, "fatal": fl, "frame": fr}}
 		// confirm by isolated replay
 		repro := 0
@@ -413,6 +442,72 @@ func raceReports(dir string) (distinct map[string]string, total int) {
 		}
 	}
 	return
+}
+
+// unsafeSiteCoverage lists the unsafe.Pointer conversion expressions in the library source and says which executed.
+func unsafeSiteCoverage(covDir string) map[string]any {
+	repo := envOr("VERIF_REPO", "/repo")
+	out := map[string]any{}
+	prof := filepath.Join(covDir, "profile.txt")
+	cmd := exec.Command("go", "tool", "covdata", "textfmt", "-i="+covDir, "-o="+prof)
+	cmd.Env = goEnv()
+	if b, err := cmd.CombinedOutput(); err != nil {
+		out["error"] = fmt.Sprintf("covdata: %v %s", err, b)
+		return out
+	}
+	type block struct {
+		s, e int
+		cnt  int64
+	}
+	blocks := map[string][]block{}
+	if f, err := os.Open(prof); err == nil {
+		sc := bufio.NewScanner(f)
+		for sc.Scan() {
+			l := sc.Text()
+			i := strings.LastIndexByte(l, ':')
+			if i < 0 || strings.HasPrefix(l, "mode:") {
+				continue
+			}
+			file := filepath.Base(l[:i])
+			var sl, scol, el, ecol, n int
+			var cnt int64
+			if _, err := fmt.Sscanf(l[i+1:], "%d.%d,%d.%d %d %d", &sl, &scol, &el, &ecol, &n, &cnt); err == nil {
+				blocks[file] = append(blocks[file], block{sl, el, cnt})
+			}
+		}
+		f.Close()
+	}
+	files, _ := filepath.Glob(filepath.Join(repo, "*.go"))
+	var total, reached int
+	var unreached []string
+	for _, fp := range files {
+		if strings.HasSuffix(fp, "_test.go") {
+			continue
+		}
+		b, err := os.ReadFile(fp)
+		if err != nil {
+			continue
+		}
+		for ln, line := range strings.Split(string(b), "\n") {
+			if !strings.Contains(line, "unsafe.Pointer(") || strings.HasPrefix(strings.TrimSpace(line), "//") {
+				continue
+			}
+			total++
+			hit := false
+			for _, bl := range blocks[filepath.Base(fp)] {
+				if bl.s <= ln+1 && ln+1 <= bl.e && bl.cnt > 0 {
+					hit = true
+				}
+			}
+			if hit {
+				reached++
+			} else {
+				unreached = append(unreached, fmt.Sprintf("%s:%d", filepath.Base(fp), ln+1))
+			}
+		}
+	}
+	out["total"], out["reached"], out["unreached"] = total, reached, unreached
+	return out
 }
 
 func uniq(s []string) []string {
@@ -610,6 +705,17 @@ func run(prop, tier string, seed int64) int {
 		ntset[h] = struct{}{}
 	}
 
+	// conversion-site accounting from the cover build (which unsafe.Pointer sites of the source executed)
+	var siteCov map[string]any
+	for _, variant := range m.Builds {
+		if variant == "cover" {
+			siteCov = unsafeSiteCoverage(filepath.Join(outDir, "covdata"))
+			if un, ok := siteCov["unreached"].([]string); ok && len(un) > 0 {
+				inconcl = append(inconcl, fmt.Sprintf("%d unsafe.Pointer conversion sites were never executed under the monitors: %v", len(un), un))
+			}
+		}
+	}
+
 	// floors
 	for k, min := range m.Floors {
 		if total.Counters[k] < min {
@@ -666,7 +772,7 @@ func run(prop, tier string, seed int64) int {
 				found = true
 			}
 		}
-		if !found {
+		if !found && (e.Tier == "" || e.Tier == tier) {
 			fmt.Printf("NOTE: known finding did not reproduce in this run (stale entry?): %s :: %s\n", s, e.What)
 		}
 	}
